@@ -103,7 +103,7 @@ def make_pin(sc, scratch, tag):
 def build(sc, scratch, tag, version=2):
     from comm.platform import Platform
     Platform.set({"ledger": Platform.LEDGER, "sgx": Platform.SGX, "tcp": Platform.X86}[sc.plat])
-    world = World(sc.dev, "hid" if sc.plat == "ledger" else "tcp")
+    world = World(sc.dev, "hid" if sc.plat == "ledger" else "tcp").late_every_second()
     install(world)
     from ledger.hsm2dongle import HSM2Dongle
     from ledger.hsm2dongle_tcp import HSM2DongleTCP
